@@ -23,6 +23,7 @@ type Case struct {
 	Cols  int        `json:"cols,omitempty"`
 	Eps   float64    `json:"epsilon,omitempty"`
 	Tgt   string     `json:"target_type,omitempty"`
+	Alias int        `json:"receiver_is_operand,omitempty"` // 1: r is operand a, 2: r is operand b (in-place form)
 }
 
 func (cs Case) describe() string {
@@ -63,6 +64,11 @@ func (cs Case) describe() string {
 			e = fmt.Sprintf(", %v", cs.Eps)
 		}
 		return fmt.Sprintf("%s(%s).%s(%s(%s)%s)", cs.Recv, cs.Vals[0], cs.Op, cs.Kinds[0], cs.Vals[1], e)
+	case "convpair":
+		if cs.Recv == "" {
+			return fmt.Sprintf("%s(%sType, %s) then %s(%sType, %s)", cs.Op, cs.Tgt, cs.Vals[0], cs.Op, cs.Tgt, cs.Vals[1])
+		}
+		return fmt.Sprintf("%s(%s).%s(%sType) then %s(%s).%s(%sType)", cs.Recv, cs.Vals[0], cs.Op, cs.Tgt, cs.Recv, cs.Vals[1], cs.Op, cs.Tgt)
 	case "conv":
 		if cs.Recv == "" {
 			return fmt.Sprintf("%s(%sType, %s)", cs.Op, cs.Tgt, cs.Vals[0])
@@ -303,8 +309,22 @@ func buildOperands(kinds []*TypeDesc, vals []*V) []ad.ConstScalar {
 }
 
 func runOp(op *OpDef, rt *TypeDesc, kinds []*TypeDesc, vals []*V, p float64) (o Obs) {
+	return runOpAlias(op, rt, kinds, vals, p, 0)
+}
+
+// runOpAlias: alias 0 = fresh receiver; 1/2 = the receiver IS operand a/b (r.Op(r, b),
+// r.Op(a, r)) -- the method still names the same function.
+func runOpAlias(op *OpDef, rt *TypeDesc, kinds []*TypeDesc, vals []*V, p float64, alias int) (o Obs) {
 	ops := buildOperands(kinds, vals)
 	r := rt.newRecv()
+	if alias > 0 {
+		rr, ok := ops[alias-1].(ad.Scalar)
+		if !ok {
+			o.NoOp = true
+			return
+		}
+		r = rr
+	}
 	t := rt.newRecv()
 	var a, b ad.ConstScalar
 	a = ops[0]
@@ -522,6 +542,25 @@ func runOneOp(c *vf.Ctx, u *unitAgg, base map[baseKey]*Obs, op *OpDef, rt *TypeD
 		u.fail(what, opnd, val, mag, rank, cs, msg)
 		c.Outcome("fail:" + what)
 		return
+	}
+	// in-place forms: the receiver is itself the operand (same concrete mutable type)
+	for al := 1; al <= len(kinds); al++ {
+		if kinds[al-1].Name != rt.Name || kinds[al-1].Const {
+			continue
+		}
+		oa := runOpAlias(op, rt, kinds, vals, p, al)
+		if oa.NoOp {
+			continue
+		}
+		c.Eval(1)
+		c.Count("in-place forms (receiver is an operand)", 1)
+		if w, m := judge(e, oa); w != "" {
+			csa := cs
+			csa.Alias = al
+			u.fail("inplace-"+w, opnd, val, mag, rank, csa, fmt.Sprintf("receiver is operand %d: %s", al, m))
+			c.Outcome("fail:inplace")
+			return
+		}
 	}
 	switch {
 	case e.PanicOK:
